@@ -323,13 +323,23 @@ theorem alignTo_post {s s' : St} {a : Nat} (h : s.alignTo a = .ok s') : Post s s
   subst this
   exact write_post _ _
 
-theorem genSectionHeader_post (s : St) (sec : Sec) (off : Int) : Post s (s.genSectionHeader sec off) := by
-  unfold St.genSectionHeader
-  have h := getString_frame s sec.name
-  rcases hg : s.getString sec.name with ⟨s1, nm⟩
+theorem addHeader_frame (s : St) (name : List Nat) (mk : Nat → Hdr) (reg : Bool) :
+    (s.addHeader name mk reg).base = s.base ∧ (s.addHeader name mk reg).body = s.body ∧
+    (s.addHeader name mk reg).phdrs = s.phdrs ∧ (s.addHeader name mk reg).symIds = s.symIds ∧
+    (s.addHeader name mk reg).shoff = s.shoff := by
+  unfold St.addHeader
+  have h := getString_frame s name
+  rcases hg : s.getString name with ⟨s1, nm⟩
   rw [hg] at h
   simp only at h ⊢
+  exact ⟨h.1, h.2.1, h.2.2.1, h.2.2.2.2.2.1, h.2.2.2.2.2.2⟩
+
+theorem addHeader_post (s : St) (name : List Nat) (mk : Nat → Hdr) (reg : Bool) : Post s (s.addHeader name mk reg) := by
+  have h := addHeader_frame s name mk reg
   exact ⟨h.1, ⟨[], by simp [h.2.1]⟩, h.2.2.1⟩
+
+theorem genSectionHeader_post (s : St) (sec : Sec) (off : Int) : Post s (s.genSectionHeader sec off) :=
+  addHeader_post _ _ _ _
 
 theorem genImageSectionHeaders_post (fo ia : Nat) : ∀ (secs : List Sec) (s : St),
     Post s (genImageSectionHeaders fo ia s secs) := by
@@ -395,17 +405,11 @@ theorem writeSymbolTable_post {q : Quirks} {L : Layouts} {o : Obj} {s s' : St}
     split at h
     · cases h
     · rename_i s2 h2
-      have hf := getString_frame s2 symtabName
-      rcases hg : s2.getString symtabName with ⟨s3, nm⟩
-      rw [hg] at h hf
-      simp only at h hf
       injection h with h
       subst h
       have p1 := alignTo_post h1
       have p2 := writeSymbols_post _ _ _ _ h2
-      have p3 : Post s2 s3 := ⟨hf.1, ⟨[], by simp [hf.2.1]⟩, hf.2.2.1⟩
-      have p12 := Post.trans p1 (Post.trans (write_post _ _) (Post.trans p2 p3))
-      exact ⟨p12.1, p12.2.1, p12.2.2⟩
+      exact Post.trans p1 (Post.trans (write_post _ _) (Post.trans p2 (addHeader_post _ _ _ _)))
 
 theorem writeRela_post {L : Layouts} {c : Cls} {s s' : St} {r : Rel} (h : s.writeRela L c r = .ok s') : Post s s' := by
   unfold St.writeRela at h
@@ -440,18 +444,11 @@ theorem writeRelaGroup_post {L : Layouts} {o : Obj} {s s' : St} {n : List Nat}
     split at h
     · cases h
     · rename_i s2 h2
-      have hf := getString_frame s2 (relaPrefix ++ n)
-      rcases hg : s2.getString (relaPrefix ++ n) with ⟨s3, nm⟩
-      rw [hg] at h hf
-      simp only at h hf
       split at h
       · cases h
       · injection h with h
         subst h
-        have p12 := Post.trans (alignTo_post h1) (writeRelas_post _ _ _ h2)
-        have p3 : Post s2 s3 := ⟨hf.1, ⟨[], by simp [hf.2.1]⟩, hf.2.2.1⟩
-        have p := Post.trans p12 p3
-        exact ⟨p.1, p.2.1, p.2.2⟩
+        exact Post.trans (alignTo_post h1) (Post.trans (writeRelas_post _ _ _ h2) (addHeader_post _ _ _ _))
 
 theorem writeRelaGroups_post {L : Layouts} {o : Obj} : ∀ (ns : List (List Nat)) (s s' : St),
     writeRelaGroups L o s ns = .ok s' → Post s s' := by
@@ -590,12 +587,8 @@ theorem writeImage_eq {s s' : St} {img : Img} (h : s.writeImage {} img = .ok s')
 
 theorem genSectionHeader_body (s : St) (sec : Sec) (off : Int) :
     (s.genSectionHeader sec off).body = s.body ∧ (s.genSectionHeader sec off).base = s.base := by
-  unfold St.genSectionHeader
-  have hf := getString_frame s sec.name
-  rcases hg : s.getString sec.name with ⟨s9, nm⟩
-  rw [hg] at hf
-  simp only at hf ⊢
-  exact ⟨hf.2.1, hf.1⟩
+  have h := addHeader_frame s sec.name (fun nm => secHdr nm sec off) true
+  exact ⟨h.2.1, h.1⟩
 
 theorem genImageSectionHeaders_body (fo ia : Nat) : ∀ (secs : List Sec) (s : St),
     (genImageSectionHeaders fo ia s secs).body = s.body ∧ (genImageSectionHeaders fo ia s secs).base = s.base := by
